@@ -1,6 +1,11 @@
 import PV.C26.Model
 import PV.C26.Spec
 import PV.C26.Gen
+import PV.C26.LemmasStr
+import PV.C26.LemmasNum
+import PV.C26.LemmasPql
+import PV.C26.LemmasLit
+import PV.C26.LemmasNest
 namespace PV.C26
 
 /-- `pql.ParseString` over the regenerated grammar. -/
@@ -9,6 +14,154 @@ def parseQ (s : List Char) : M (List Call) := parseWith Gen.rule Gen.start s
 /-- The regenerated rule table is a well-formed PEG: references in range, no left recursion, no
 `star` over a nullable body. -/
 theorem C26_grammar_wf : wellFormed Gen.rule Gen.nRules = true := by decide
+
+/-! ## C26_forward
+
+Full-strength statement: for every call `c` the executor can forward (argument values uint64,
+int64, bool, string, float64, nil, []int64, []uint64, []interface{}, *Condition, nested call),
+`parseQ (fmtCall isPrint c) = ok [c]` with equal names, children, keys, values and dynamic types.
+
+Proved: `C26_forward_nested_partial` (and its depth-1 case `C26_forward_flat_partial`) - the
+statement for the fragment `Nested`: calls nested to ANY depth (`Count(Union(Row(a=1), Row(b > 2)))`),
+every call with a generic name (any identifier that is not one of the nine special-form keywords),
+children that are again in the fragment, arguments `key=value` / `key op value` with field-name
+keys (letter, then letters/digits/`_`/`-`) in strictly increasing order, at least one child or
+argument, and values int64, nil, bool, string (any byte string, valid UTF-8 or not, whose quoted form
+does not begin with a digit) and comparisons `== != < <= > >=` with an int64.
+It goes through the generic PEG interpreter on the grammar REGENERATED from pql.peg (all ten
+alternatives of `Call` and of `item`, `arg`, `args`, all three of `allargs`, `Calls`), the model of the
+action machine with its call stack and the models of strconv.Quote/Unquote, for every table of
+printable characters.
+Excluded and still correspondence-only: floats, lists (hence BETWEEN), reserved keys (`_col`,
+`_field`, ..), strings whose quoted form begins with a digit, calls without children and arguments,
+call-valued arguments, the special-form names (Set, Clear, TopN, Rows, Range, ..); uint64 and typed id
+lists are recorded findings (they cannot round-trip: see the witnesses below). -/
+
+/-- The parser with `n` units of fuel on the regenerated grammar. -/
+def parseN (n : Nat) (s : List Char) : M (List Call) := parseFuel Gen.rule Gen.start n s
+
+theorem C26_forward_flat_partial (isPrint : Char → Bool) (hnl : isPrint '\n' = false)
+    (name : List Char) (args : List (Key × Val)) (h : FlatCall isPrint name args) :
+    (∃ n, parseN n (fmtCall isPrint (.mk name args [])) = .ok [.mk name args []]) ∧
+    (∀ n, parseN n (fmtCall isPrint (.mk name args [])) = .error .fuel ∨
+          parseN n (fmtCall isPrint (.mk name args [])) = .ok [.mk name args []]) := by
+  obtain ⟨n0, hn0⟩ := flat_parses isPrint name args h
+  obtain ⟨q, hq, hc⟩ := flat_exec isPrint hnl name args h
+  refine ⟨⟨n0, by simp [parseN, parseFuel, hn0, hq, hc]⟩, fun n => ?_⟩
+  rcases run_det Gen.rule hn0 (by simp) n with hf | ho
+  · left; simp [parseN, parseFuel, hf]
+  · right; simp [parseN, parseFuel, ho, hq, hc]
+
+/-- C26_forward for the nested fragment (T2 for generic names and simple values). -/
+theorem C26_forward_nested_partial (isPrint : Char → Bool) (hnl : isPrint '\n' = false)
+    (d : Nat) (c : Call) (h : Nested isPrint d c) :
+    (∃ n, parseN n (fmtCall isPrint c) = .ok [c]) ∧
+    (∀ n, parseN n (fmtCall isPrint c) = .error .fuel ∨ parseN n (fmtCall isPrint c) = .ok [c]) := by
+  have hp := nested_parses isPrint d c h [] trivial
+  rw [List.append_nil] at hp
+  obtain ⟨n0, hn0⟩ := calls_single _ _ (nested_text isPrint d c h).1 hp
+  obtain ⟨t, ht⟩ := ((nested_exec isPrint hnl d c h) {} []).1 rfl
+  have hexec : exec (evCallD isPrint d c) {} = .ok { calls := [c], text := t } := by
+    simpa [exec] using ht
+  refine ⟨⟨n0, ?_⟩, fun n => ?_⟩
+  · show parseFuel Gen.rule Gen.start n0 _ = _
+    simp [parseFuel, show run Gen.rule n0 (.ref Gen.start) (fmtCall isPrint c) = _ from hn0, hexec]
+  · rcases run_det Gen.rule hn0 (by simp) n with hf | ho
+    · left; show parseFuel Gen.rule Gen.start n _ = _
+      simp [parseFuel, show run Gen.rule n (.ref Gen.start) (fmtCall isPrint c) = _ from hf]
+    · right; show parseFuel Gen.rule Gen.start n _ = _
+      simp [parseFuel, show run Gen.rule n (.ref Gen.start) (fmtCall isPrint c) = _ from ho, hexec]
+
+/-- Non-vacuity: `Count(Union(Row(a=1), Row(b > 2)))` is in the nested fragment (depth 3). -/
+example : Nested (fun c => c.toNat ≥ 32 && c.toNat < 127) 3
+    (.mk cl!"Count" [] [.mk cl!"Union" []
+      [.mk cl!"Row" [(cl!"a", .int 1)] [], .mk cl!"Row" [(cl!"b", .cond .GT (.int 2))] []]]) := by
+  refine ⟨⟨'C', cl!"ount", rfl, by decide, by decide⟩, by decide, Or.inr (by simp), by simp, trivial, ?_⟩
+  intro ch hch
+  simp only [List.mem_singleton] at hch
+  subst hch
+  refine ⟨⟨'U', cl!"nion", rfl, by decide, by decide⟩, by decide, Or.inr (by simp), by simp, trivial, ?_⟩
+  intro ch hch
+  simp only [List.mem_cons, List.not_mem_nil, or_false] at hch
+  rcases hch with rfl | rfl
+  · refine ⟨⟨'R', cl!"ow", rfl, by decide, by decide⟩, by decide, Or.inl (by simp), ?_, trivial, by simp⟩
+    intro kv hkv
+    simp only [List.mem_singleton] at hkv
+    subst hkv
+    exact ⟨⟨'a', [], rfl, by decide, by simp⟩, by decide, by decide⟩
+  · refine ⟨⟨'R', cl!"ow", rfl, by decide, by decide⟩, by decide, Or.inl (by simp), ?_, trivial, by simp⟩
+    intro kv hkv
+    simp only [List.mem_singleton] at hkv
+    subst hkv
+    exact ⟨⟨'b', [], rfl, by decide, by simp⟩, by simp [cmpOps], by decide, by decide⟩
+
+/-- Non-vacuity: `Row(f=-7, g="é\"x", h=null, k=true)` is in the flat fragment. -/
+example : FlatCall (fun c => c.toNat ≥ 32 && c.toNat < 127) cl!"Row"
+    [(cl!"f", .int (-7)), (cl!"g", .str [0xc3, 0xa9, 34, 120]), (cl!"h", .null), (cl!"k", .bool true)] where
+  name_ok := ⟨'R', ['o', 'w'], rfl, by decide, by decide⟩
+  not_special := by decide
+  nonempty := by simp
+  args_ok := by
+    intro kv hkv
+    simp only [List.mem_cons, List.not_mem_nil, or_false] at hkv
+    rcases hkv with rfl | rfl | rfl | rfl
+    · exact ⟨⟨'f', [], rfl, by decide, by simp⟩, by decide, by decide⟩
+    · exact ⟨⟨'g', [], rfl, by decide, by simp⟩, by decide,
+        by simp [NotHead, quoteBody, pieces, decodeRune, isCont, quotePiece, isDigit]⟩
+    · exact ⟨⟨'h', [], rfl, by decide, by simp⟩, trivial⟩
+    · exact ⟨⟨'k', [], rfl, by decide, by simp⟩, trivial⟩
+  sorted := by simp [SortedKeys, ltKey]
+
+/-! ## Value layer -/
+
+/-- Strings: `strconv.Unquote (strconv.Quote s) = s` for every byte string (valid UTF-8 or not),
+whatever the table of printable characters, as long as a newline is never left raw. -/
+theorem C26_string_roundtrip (isPrint : Char → Bool) (hnl : isPrint '\n' = false) (bs : Bytes)
+    (wf : ∀ b ∈ bs, b < 256) : unquote (quote isPrint bs) = some bs :=
+  unquote_quote isPrint hnl bs wf
+
+example : unquote (quote (fun c => c.toNat ≥ 32 && c.toNat < 127) [0xc3, 0xa9, 34, 92, 10, 0xff, 65]) =
+    some [0xc3, 0xa9, 34, 92, 10, 0xff, 65] :=
+  C26_string_roundtrip _ (by decide) _ (by decide)
+
+/-- C26_literals, string layer: a double-quoted literal written from structurally described items
+(plain characters of all of Unicode, the single-letter escapes, `\\xHH`, `\\uHHHH`, `\\UHHHHHHHH`) denotes
+exactly the bytes `strconv.Unquote` returns for its text.  Excluded: octal escapes `\\ooo`
+(correspondence only).  The full C26_literals (every literal form through the parser) is not yet
+proved. -/
+theorem C26_literal_dq_partial (items : List DqItem) (hok : ∀ it ∈ items, it.ok = true)
+    (hno : ∀ it ∈ items, ∀ b, it ≠ .oct b) :
+    unquote (Lit.write (.dq items)) = some (items.flatMap DqItem.value) := by
+  simpa [Lit.write] using unquote_dqItems items hok hno
+
+example : unquote (Lit.write (.dq [.ch 'é', .esc 'n', .hex 255, .u4 0x20AC, .u8 0x1F600])) =
+    some [0xc3, 0xa9, 10, 255, 0xe2, 0x82, 0xac, 0xf0, 0x9f, 0x98, 0x80] := by
+  rw [C26_literal_dq_partial _ (by decide) (by intro it hit b; simp at hit; rcases hit with rfl | rfl | rfl | rfl | rfl <;> simp)]
+  decide
+
+/-- Integers: an int64 printed by `Call.String` is read back as the same int64. -/
+theorem C26_int_roundtrip (i : Int) (h1 : minInt64 ≤ i) (h2 : i ≤ maxInt64) :
+    numVal (intDigits i) = .ok (.int i) := by
+  have hd := (natDigits_spec i.natAbs).2.2
+  have hdot : '.' ∉ natDigits i.natAbs := fun hm => by
+    have := hd _ hm; simp [isDigit] at this
+  have hnd : '.' ∉ intDigits i := by
+    simp only [intDigits]
+    split
+    · simp only [List.mem_cons, not_or]; exact ⟨by decide, hdot⟩
+    · exact hdot
+  simp [numVal, hnd, parseInt64_intDigits i h1 h2]
+
+example : numVal (intDigits (-9223372036854775808)) = .ok (.int (-9223372036854775808)) :=
+  C26_int_roundtrip _ (by decide) (by decide)
+
+/-- The grammar regenerated from pql.peg reads a printed integer as one numeric literal: the PEG
+interpreter on `item` consumes exactly the digits and records `addNumVal(text)`. -/
+theorem C26_item_int_partial (neg : Bool) (ds r : List Char) (d : Char) (hne : ds ≠ [])
+    (hall : ∀ c ∈ ds, isDigit c = true) (hd : Delim d) :
+    Parses Gen.rule (.ref Gen.R.item) ((signText neg ++ ds) ++ d :: r) (d :: r)
+      [.text (signText neg ++ ds), .act .addNumVal] :=
+  item_int_ok neg ds r d hne hall hd
 
 /-! ## Witnesses of the recorded findings (known_findings.jsonl) -/
 
